@@ -81,7 +81,19 @@ fn observe<S: Store>(case: &Value) -> Value {
         for k in 0..case["pad"].as_u64().unwrap_or(0) {
             d.add_number(SimpleNumber::Integer(1000 + k as i32)).map_err(|e| format!("{}", e))?;
         }
-        let (l, _) = build_list(&mut d, &items)?;
+        let (mut l, _) = build_list(&mut d, &items)?;
+        if case["copy"].as_bool().unwrap_or(false) {
+            // the list is copied into another data object of the same kind (traits::helpers::clone_data) and everything below is
+            // asked of the COPY: a copy of a list is a list of the same items in the same order under the same keys
+            let mut d2 = S::fresh(Host::default());
+            let u2 = d2.add_unit().map_err(|e| format!("{}", e))?;
+            d2.push_value_stack(u2).map_err(|e| format!("{}", e))?;
+            for k in 0..case["pad"].as_u64().unwrap_or(0) {
+                d2.add_number(SimpleNumber::Integer(2000 + k as i32)).map_err(|e| format!("{}", e))?;
+            }
+            l = garnish_lang_traits::helpers::clone_data(l, &d, &mut d2).map_err(|e| format!("clone_data: {}", e))?;
+            d = d2;
+        }
         let n = items.len() as i32;
         let mut o = json!({"store": S::name(), "status": "ok"});
         o["len"] = d.get_list_len(l).map(|x| json!(x)).unwrap_or(json!(-1));
